@@ -320,7 +320,7 @@ def run(tier, seed):
     # process-level state - a memo table, a mutated default - shows up in the panel)
     panel = [t for t in PANEL if t in ref]
     if not thorough:
-        panel = panel[:7]
+        panel = panel[:4]
     for n, tid in enumerate(tids):
         if cat.BY_ID[tid]["cost"] > (8 if thorough else 3):
             continue
